@@ -67,7 +67,7 @@ CHECKS["C08"] = dict(level="model_checking", design="5 C08",
    technique="TLA+ trace validation (TLC) for WHERE + differential laws over real executions for HAVING / sub-queries")
 
 CHECKS["C12"] = dict(level="model_checking", design="5 C12",
-   text="spec/Cluster.tla models the offset hand-over between leaders and followers (per-table per-source offsets, the last-delivered offset of a link, the leader's per-(follower, table) starting points and reader restart, follower-side de-duplication, flush, crash, restart from a directory snapshot, link cuts, leader restarts); TLC checks NoDuplicate, OnlyRouted, Persisted and Converged over every interleaving of a small instance; TLC-simulated fault sequences are replayed on an in-process cluster of real databases (1-2 leaders, 2-3 partitions, 1-2 followers each) with harness-owned links and crash images, and at every exactly-detected quiescent point every follower table is compared with the reference bag: never more than was inserted, replicas of a partition equal, the partitions together exactly the inserted points.",
+   text="spec/Cluster.tla models the offset hand-over between leaders and followers (per-table per-source offsets, the last-delivered offset of a link, the leader's per-(follower, table) starting points and reader restart, follower-side de-duplication, flush, crash, restart from a directory snapshot, link cuts, leader restarts); TLC checks NoDuplicate, OnlyRouted, Persisted and Converged over every interleaving of a small instance; TLC-simulated and goal-directed fault sequences (skip-only flush / data / flush / crash orders, one table flushed and the other not, an older directory snapshot, a cut during a flush) are replayed on an in-process cluster of real databases (1-2 leaders, 2-3 partitions, 1-2 followers each) with harness-owned links and crash images, and at every exactly-detected quiescent point every follower table is compared with the reference bag: never more than was inserted, replicas of a partition equal, the partitions together exactly the inserted points.",
    note="An rpc part drops and re-establishes the real rpc follow streams of follower databases (zvwire) while points arrive. The leader's bookkeeping of every execution (connect messages, starting points, entries with the followers included, deliveries) is validated by TLC against spec/TraceFollow.tla. The gRPC transport and server.followSource's back-off loop are replaced by harness-owned links that follow the same hand-over protocol (same Follow message reused, EarliestOffset = last delivered offset). No trace validation of the leader's internal pipeline in this round: the specification is bound through replayed behaviours and state comparison at quiescent points.",
    technique="TLA+ model checking (TLC) + replay of TLC fault sequences into an in-process cluster of the real code + trace validation of the leader's follower bookkeeping (TraceFollow.tla)")
 CHECKS["C10"] = dict(level="model_checking", design="5 C10",
@@ -86,18 +86,18 @@ CHECKS["C13"] = dict(level="model_checking", design="5 C13",
    technique="TLA+ model checking (TLC) of the query fan-out + replay of the specification's fault vectors on the real cluster code; fault enumeration for deadlines, memory cap and the HTTP API")
 
 CHECKS["C11"] = dict(level="translation_validation", design="5 C11",
-   text="spec/GenPlan.tla defines the program space of the distributed planner (select list x WHERE incl. string literals and IN-sub-queries that contain clause keywords x GROUP BY dims / expression / nothing x period x CROSSTAB x HAVING x ORDER BY x LIMIT/OFFSET x FROM table or sub-query) and the statement's condition for pushing a query down whole (every output group confined to one partition, for every partition-key set and table grouping); TLC enumerates the descriptors with that condition, each is rendered as SQL in three lexical variants, planned by the real planner.Plan with and without QueryCluster over mock tables whose points are split over N = 1..6 partitions by the partition keys (or by all dimensions), both plans are executed and the rows, field lists and ORDER BY sequences compared; the observed pushdown decision is checked against the specification's condition.",
-   note="Per program, not for all programs at once: quick samples 1/12 of the 13158 descriptors x 4 (partition keys, table grouping, N, dataset) combinations, thorough takes all x 8. The fan-out is a sequential loop over mock partitions (the real fan-out is C10/C13). Known finding D11 (OFFSET pushed down) is listed in known_findings.json.",
+   text="spec/GenPlan.tla defines the program space of the distributed planner (select list x WHERE incl. string literals and IN-sub-queries that contain clause keywords x GROUP BY dims / expression / nothing x period x CROSSTAB x HAVING x ORDER BY x LIMIT/OFFSET x FROM table, an ordered and limited sub-query, or a chain of one or two nested grouping sub-queries) and the statement's condition for pushing a query down whole (every output group confined to one partition, for every partition-key set and table grouping); TLC enumerates the descriptors with that condition, each is rendered as SQL in three lexical variants, planned by the real planner.Plan with and without QueryCluster over mock tables whose points are split over N = 1..6 partitions by the partition keys (or by all dimensions), both plans are executed and the rows, field lists and ORDER BY sequences compared; the observed pushdown decision is checked against the specification's condition.",
+   note="Per program, not for all programs at once: quick samples 1/24 of the 30402 descriptors x 4 (partition keys, table grouping, N, dataset) combinations, thorough takes all x 8. The fan-out is a sequential loop over mock partitions (the real fan-out is C10/C13). Known finding D11 (OFFSET pushed down) is listed in known_findings.json.",
    technique="TLA+-enumerated program space (TLC) + translation validation: cluster plan vs local plan of the real planner executed on split data")
 
 CHECKS["C16"] = dict(level="exploration", design="5 C16",
-   text="spec/Robust.tla gives the abstract input space (statement kind; for SELECT a base shape and up to two of 38 malformation operators: dropped / duplicated / reordered clauses, truncation, unbalanced parentheses, unknown table / field / function, wrong arity and argument kind for the functions of sql.go, bad durations and time ranges, deep nesting, keywords as identifiers, unclosed quotes, huge numbers, control bytes, several statements; 32 classes of insert payloads x entry point) and the state machine that says what must survive (alive, pipeline running, every valid point reflected by the next probe; checked by TLC). TLC enumerates the inputs, each is rendered in several concrete variants and submitted under recover to sql.Parse, DB.Query (planner) + Iterate and the rpc query endpoint, resp. DB.Insert, DB.InsertRaw, the HTTP insert handler and the rpc insert stream, interleaved with valid points and probes; a panic, a crashed process or a probe that does not see every valid point is a violation.",
+   text="spec/Robust.tla gives the abstract input space (statement kind; for SELECT a base shape and up to two of 39 malformation operators: dropped / duplicated / reordered clauses, truncation, unbalanced parentheses, unknown table / field / function, wrong arity and argument kind for the functions of sql.go, bad durations and time ranges, deep nesting, keywords as identifiers, unclosed quotes, escape characters and doubled quotes inside each kind of quoting, huge numbers, control bytes, several statements; 32 classes of insert payloads x entry point) and the state machine that says what must survive (alive, pipeline running, every valid point reflected by the next probe; checked by TLC). TLC enumerates the inputs, each is rendered in several concrete variants (the variants of an operator are cycled through, so all of them are used) and submitted under recover to sql.Parse, DB.Query (planner) + Iterate and the rpc query endpoint, resp. DB.Insert, DB.InsertRaw, the HTTP insert handler and the rpc insert stream, interleaved with valid points and probes; a panic, a crashed process or a probe that does not see every valid point is a violation.",
    note="Structural classes only - no byte-level fuzzing; functions that need external services (redis, geo, isp) only with wrong arities / argument kinds. Replication is probed with odd payloads and valid points through the leader of an in-process cluster. Known finding D12 (far-future timestamps) is listed in known_findings.json and exercised in processes of its own under a memory limit.",
    technique="TLA+-enumerated input space (TLC) replayed on the real entry points under recover, with valid traffic and probes in between")
 
 CHECKS["C20"] = dict(level="exploration", design="5 C20",
-   text="spec/Wire.tla models one remote query over a lossless FIFO channel (query, field list, rows, one closing message with statistics or the follower's error) with the laws Lossless, WellFormed, ErrorReported and QueryIntact, checked by TLC. (i) Every expression tree TLC enumerates from spec/GenExpr.tla (the C05 oracle Data!Eval) travels in a field list through the real rpc.Codec: the decoded expression must have the same text, width and shift, accumulate the updates to the same state and expected value, and merge with states of the original; generated dimension/value maps over all scalar types, rows, series, points, follow, query and report messages are compared field by field. (ii) Generated and fixed queries are answered embedded, through the rpc client, and by follower databases answering a leader over rpc (points inserted through the rpc insert stream, followers fed by the rpc follow stream): the rows must be equal. (iii) The messages of every remote query, logged on both sides of the real gRPC transport, are validated against spec/TraceWire.tla by TLC.",
-   note="All nodes live in one process and talk over 127.0.0.1. Byte-level codec internals are observed only through behaviour. Leader and follower sessions of a partition are paired by order.",
+   text="spec/Wire.tla models one remote query over a lossless FIFO channel (query, field list, rows, one closing message with statistics or the follower's error) with the laws Lossless, WellFormed, ErrorReported and QueryIntact, checked by TLC. (i) Every expression tree TLC enumerates from spec/GenExpr.tla (the C05 oracle Data!Eval) travels in a field list through the real rpc.Codec: the decoded expression must have the same text, width and shift, accumulate the updates to the same state and expected value, and merge with states of the original; generated dimension/value maps over all scalar types, rows, series, points, follow, query and report messages are compared field by field. (ii) Generated and fixed queries are answered embedded, through the rpc client, and by follower databases answering a leader over rpc (points inserted through the rpc insert stream, followers fed by the rpc follow stream): the rows must be equal. (iii) The messages of every remote query, logged on both sides of the real gRPC transport (the query message with everything it carries: text, sub-query flag and results, unflat, memstore flag, deadline), are validated against spec/TraceWire.tla by TLC.",
+   note="All nodes live in one process and talk over 127.0.0.1. Byte-level codec internals are observed only through behaviour. Leader and follower sessions of a partition are paired by query text within the leader session's window.",
    technique="TLA+ model checking (TLC) of the remote-query protocol + trace validation of real rpc message sequences + TLC-enumerated codec round trips and rpc-vs-embedded differential runs")
 
 NOT_YET = {}
